@@ -6,6 +6,7 @@ package childqueues_updater
 import (
 	"context"
 	"fmt"
+	"sort"
 
 	"sigs.k8s.io/controller-runtime/pkg/client"
 
@@ -32,6 +33,7 @@ func (ru *ChildQueuesUpdater) UpdateQueue(ctx context.Context, queue *v2.Queue) 
 
 		childrenQueueNames = append(childrenQueueNames, childQueue.Name)
 	}
+	sort.Strings(childrenQueueNames)
 	queue.Status.ChildQueues = childrenQueueNames
 
 	return nil
